@@ -670,9 +670,13 @@ class Session:
 
     def request(self, key, deadline):
         """Returns the object aurel hands out, or None (time-out / raise)."""
-        if key in BRANCHY and key not in self.rel.data:
-            self.branch[key] = ("from-uddd" if "Riemann_uddd" in self.rel.data
-                                else "direct-branch")
+        # Which way a history-dependent key is computed is decided by whether
+        # Riemann_uddd had been obtained before (the property's "which other
+        # quantities were requested before"); such a key may also be computed
+        # implicitly (RicciS and Einstein_down need Ricci_down).
+        prospective = ("from-uddd" if "Riemann_uddd" in self.rel.data
+                       else "direct-branch")
+        pending = [k for k in BRANCHY if k not in self.rel.data]
         left = deadline - time.time()
         if left <= 0:
             self.timed_out = True
@@ -686,6 +690,10 @@ class Session:
         except Exception as e:  # noqa: BLE001
             self.raised[key] = f"{type(e).__name__}: {e}"[:300]
             return None
+        finally:
+            for k in pending:
+                if k in self.rel.data or k == key:
+                    self.branch.setdefault(k, prospective)
 
     def base(self, key):
         return f"{key}:{self.branch[key]}" if key in self.branch else key
